@@ -3,6 +3,7 @@ package c18
 import (
 	"fmt"
 	"math/big"
+	"strconv"
 	"strings"
 
 	"github.com/ethereum/go-ethereum/accounts/abi"
@@ -102,7 +103,9 @@ func genHLog(idx int, j int, rng *h.Rng, long bool) string {
 		vals = append(vals, genValue(in.Type, rng, long))
 	}
 	bn := []uint64{1, 2, 7, 1 << 32, 1<<64 - 1, 12345678}[rng.Intn(6)]
-	s := fmt.Sprintf("%d;%d;%d;%d", idx, bn, j+1, j%3)
+	// log index: small, and beyond one byte / one word (review E, T2: "index >= 256")
+	lix := []uint64{uint64(j % 3), uint64(j % 3), 255, 256 + uint64(j%3), 65536, 1 << 32, 1<<32 + 256, 1 << 62}[rng.Intn(8)]
+	s := fmt.Sprintf("%d;%d;%d;%d", idx, bn, j+1, lix)
 	if len(vals) > 0 {
 		s += ";" + strings.Join(vals, ";")
 	}
@@ -601,6 +604,13 @@ func gen(tier string, rng *h.Rng, emit func(string)) {
 				idx = tl[i%len(tl)]
 			}
 			H = append(H, genHLog(idx, j, rng, i%9 == 0))
+		}
+		// a second log of the SAME transaction with the SAME values whose log index differs by 256 / 2^32: two events
+		if rng.Intn(3) == 0 {
+			f := strings.Split(H[rng.Intn(len(H))], ";")
+			ix, _ := strconv.ParseUint(f[3], 10, 64)
+			f[3] = fmt.Sprint(ix + []uint64{256, 512, 1 << 32}[rng.Intn(3)])
+			H = append(H, strings.Join(f, ";"))
 		}
 		only := map[int]bool{}
 		for j := range H {
